@@ -222,6 +222,19 @@ impl XmlConverter {
                         }
                         None => None,
                     };
+                    // A document has exactly one root ELEMENT: text (a string or a
+                    // {text = ..} node) cannot stand in its place.
+                    let root_is_element = match n.as_ref() {
+                        Val::Tuple(fs) => fs.iter().any(|(k, _)| k.as_ref() == "name"),
+                        _ => false,
+                    };
+                    if !root_is_element {
+                        return Err(BuildError::new(
+                            "XML doc root must be an element (a tuple with a name)",
+                            ErrorType::TypeFail,
+                        )
+                        .to_boxed());
+                    }
                     writer.write(XmlEvent::StartDocument {
                         // We default to version 1.1 documents if not specified.
                         version: version.unwrap_or(XmlVersion::Version10),
